@@ -1,7 +1,199 @@
+/-
+  Driver ops of the end-to-end tie (C07): the whole `DecisionMaker.MakeDecision` against `Model.decide`.
+  Mirrors harness/main/c07e2e.go.
+
+    (decide req seeds exp)           → (ok (result biases)) | (err)       bit-exact
+    (decide-some req seeds exp go)   → (ok some) | the model's own answer  aspect elimination with tied weights:
+                                        SOME weight-compatible examination order reproduces Go's answer exactly
+    (decide-close req seeds exp go)  → (ok close) | the model's own answer same structure, numbers within 1e-9
+                                        relative (+1e-12 absolute); not used by the harness any more
+
+    exp    = ((x y)...)  pairs of the graph of math.Exp computed by the harness (math.Exp is external: the
+             model's `exp` parameter is this finite piece of it, `Float.exp` elsewhere)
+
+    req    = (method crits known chosen (none)|(some mp) (bias...) biasApplyRandomSeed)
+    bias   = (name disabled none|prob props)
+    props  = (split (ratio min max) ordering seed) | (fatigue fnName (value alpha multiplier queryNumber) (scaling nonNeg) seed)
+           | (flat (nums strs bools)) | (anch anchProps) | (bad)
+    seeds  = ((seed (draws...))...)
+    result = ((id vals payload (links...))...)    payload = (util v) | (electre asc desc) | (maj value cmp cav) | (asp idx thr) | (sat idx thr)
+    biases = ((name prob (null)|(kind report))...)
+-/
 import Rdm.Ops.Codec
+import Rdm.Ops.BiasesA
+import Rdm.Ops.BiasesB
+import Rdm.Ops.Heuristics
+import Rdm.Model.Decide
+import Rdm.Spec.C12
 namespace Rdm.Ops
 open Rdm
+variable {α : Type} [Num α]
 
-def decideOps : List (String × (List SExp → R SExp)) := []
+/-! ### decoding the request -/
+
+def decBProps (e : SExp) : R (BProps α) := do
+  match e with
+  | .list [.atom "split", c, o, s] => pure (.split (← decSplitCond c) (← o.asStr) (← s.asInt))
+  | .list [.atom "fatigue", n, .list [v, a, m, q], b, s] =>
+    let name ← n.asStr
+    let v : α ← v.asNum
+    let a : α ← a.asNum
+    let m : α ← m.asNum
+    let q ← q.asInt
+    let fn : FatigueFn α :=
+      if name == Facts.fatigueConst then .const v
+      else if name == Facts.fatigueExp then .expFromZero a m q
+      else .unknown name
+    pure (.fatigue fn (← decBounding b) (← s.asInt))
+  | .list [.atom "flat", p] => pure (.flat (← decProps p))
+  | .list [.atom "anch", p] => pure (.anch (← decAnchProps p))
+  | .list [.atom "bad"] => pure .bad
+  | _ => throw s!"bad bias props {e}"
+
+def decBiasEntry (e : SExp) : R (BiasReq α (BProps α)) := do
+  match e with
+  | .list [n, d, .atom "none", p] => pure ⟨← n.asStr, ← d.asBool, none, ← decBProps p⟩
+  | .list [n, d, pr, p] => pure ⟨← n.asStr, ← d.asBool, some (← pr.asNum), ← decBProps p⟩
+  | _ => throw s!"bad bias entry {e}"
+
+def decRequest (e : SExp) : R (Request α) := do
+  match e with
+  | .list [m, cs, ka, ch, mp, bs, seed] =>
+    pure { method := ← m.asStr, crit := ← decCrits cs, known := ← decAlts ka, chosen := ← decStrs ch,
+           mp := ← decOpt decMParams mp, biases := ← bs.mapList decBiasEntry, biasSeed := ← seed.asInt }
+  | _ => throw s!"bad request {e}"
+
+def decSeeds (e : SExp) : R (Seeds α) :=
+  e.mapList fun p => do
+    match p with
+    | .list [s, ds] => pure (← s.asInt, ← decNums ds)
+    | _ => throw s!"bad seed entry {p}"
+
+/-- the model's `exp`: the observed piece of the graph of `math.Exp`, `Float.exp` elsewhere -/
+def expOfTable (t : List (UInt64 × Float)) (x : Float) : Float :=
+  match t.find? (fun p => p.1 == x.toBits) with
+  | some p => p.2
+  | none => Float.exp x
+
+def decExpTable (e : SExp) : R (List (UInt64 × Float)) :=
+  e.mapList fun p => do
+    match p with
+    | .list [x, y] =>
+      let x : Float ← x.asNum
+      pure (x.toBits, ← y.asNum)
+    | _ => throw s!"bad exp pair {p}"
+
+/-! ### printing the response -/
+
+def encEval : Eval α → SExp
+  | .util v => .list [.atom "util", SExp.num v]
+  | .electre a d => .list [.atom "electre", SExp.int a, SExp.int d]
+  | .maj e => .list [.atom "maj", SExp.num e.value, SExp.str e.cmp, SExp.num e.cav]
+  | .asp e => .list [.atom "asp", SExp.nat e.idx, encNumMap e.thr]
+  | .sat e => .list [.atom "sat", SExp.nat e.idx, encNumMap e.thr]
+
+/-- the values the method saw for the alternative of a result entry (`(missing)` if the id is unknown) -/
+def encEntryVals (fin : DMP α) (id : String) : SExp :=
+  match fin.all.find? (fun a => a.id == id) with
+  | some a => encNumMap a.vals
+  | none => .list [.atom "missing"]
+
+def encReport : Report α → SExp
+  | .omission om => .list [.atom "omission", encCrits om]
+  | .reversal rep => .list [.atom "reversal", .list (rep.map encReversed)]
+  | .fatigue rep => .list [.atom "fatigue", encFatigueReport rep]
+  | .conceal rep => .list [.atom "conceal", encConcealReport rep]
+  | .mixing none => .list [.atom "null"]
+  | .mixing (some r) => .list [.atom "mixing", encMixReport (some r)]
+  | .anchoring rep => .list [.atom "anchoring", encAnchReport rep]
+
+def encBiasOut (o : BiasOut α (Report α)) : SExp :=
+  .list [SExp.str o.name, SExp.num o.prob,
+    match o.report with
+    | none => .list [.atom "null"]
+    | some r => encReport r]
+
+def encResponse (r : Response α) : SExp :=
+  .list [.list (r.result.map fun e => .list [SExp.str e.id, encEntryVals r.final e.id, encEval e.ev, encStrs e.links]),
+         .list (r.biases.map encBiasOut)]
+
+/-! ### ops -/
+
+/-- `(decide req seeds)` -/
+def opDecide (args : List SExp) : R SExp := do
+  match args with
+  | [q, s, t] =>
+    let req : Request Float ← decRequest q
+    pure (encR (Rdm.decide (expOfTable (← decExpTable t)) req (← decSeeds s)) encResponse)
+  | _ => throw "decide: arity"
+
+/-- consecutive runs of equal weight -/
+def weightRuns : List (WCrit Float) → List (List (WCrit Float))
+  | [] => []
+  | c :: cs =>
+    match weightRuns cs with
+    | (d :: run) :: rest => if c.w == d.w then (c :: d :: run) :: rest else [c] :: (d :: run) :: rest
+    | rest => [c] :: rest
+
+/-- every examination order compatible with the weights: descending, any order inside a tie group -/
+def tieOrders (wc : List (WCrit Float)) : List (List (WCrit Float)) :=
+  (weightRuns (sortCriteriaDesc wc)).foldr (fun run acc => (Spec.C12.perms run).flatMap fun p => acc.map (p ++ ·)) [[]]
+
+/-- the model's answers: its own (distinct weights: the only one) followed, for aspect elimination whose
+    final weights are tied, by the answer under every other weight-compatible examination order (the
+    comparator of `sort.Slice` draws random numbers for ties) -/
+def decideCandidates (exp : Float → Float) (req : Request Float) (g : Int → Draws Float) : List SExp :=
+  let own := encR (decideWith exp sortCriteriaDesc req g) encResponse
+  let orders : List (List (WCrit Float)) :=
+    match pipeline exp req g with
+    | .ok (fin, _) =>
+      match fin.mp with
+      | .aspect _ _ _ w _ =>
+        match zipWithWeights fin.crit w with
+        | .ok wc => if weightsDistinct wc then [] else tieOrders wc
+        | .error _ => []
+      | _ => []
+    | .error _ => []
+  own :: orders.map fun o => encR (decideWith exp (fun _ => o) req g) encResponse
+
+/-- `(decide-some req seeds go)`: SOME weight-compatible examination order reproduces Go's answer exactly -/
+def opDecideSome (args : List SExp) : R SExp := do
+  match args with
+  | [q, s, t, go] =>
+    let req : Request Float ← decRequest q
+    let cands := decideCandidates (expOfTable (← decExpTable t)) req (genOf (← decSeeds s))
+    let go := toString go
+    pure (if cands.any (fun c => toString c == go) then .list [.atom "ok", .atom "some"] else cands.headD (.atom "none"))
+  | _ => throw "decide-some: arity"
+
+def parseNumAtom (s : String) : Option Float :=
+  match s.toList with
+  | 'x' :: rest => if rest.length == 16 then (parseHex rest).map fun n => Float.ofBits (UInt64.ofNat n) else none
+  | _ => none
+
+def numsClose (a b : Float) : Bool :=
+  a == b || Float.abs (a - b) ≤ 1e-9 * (if Float.abs a < Float.abs b then Float.abs b else Float.abs a) + 1e-12
+
+/-- same tree, same atoms except that two number atoms may differ within the tolerance -/
+partial def sexpClose : SExp → SExp → Bool
+  | .atom a, .atom b =>
+    a == b || (match parseNumAtom a, parseNumAtom b with
+               | some x, some y => numsClose x y
+               | _, _ => false)
+  | .list l, .list m => l.length == m.length && (l.zip m).all fun p => sexpClose p.1 p.2
+  | _, _ => false
+
+/-- `(decide-close req seeds go)`: `math.Exp` is external (`Float.exp` differs from it in the last place
+    in a fraction of the arguments), so a request whose fired biases use it is compared structurally -/
+def opDecideClose (args : List SExp) : R SExp := do
+  match args with
+  | [q, s, t, go] =>
+    let req : Request Float ← decRequest q
+    let cands := decideCandidates (expOfTable (← decExpTable t)) req (genOf (← decSeeds s))
+    pure (if cands.any (fun c => sexpClose c go) then .list [.atom "ok", .atom "close"] else cands.headD (.atom "none"))
+  | _ => throw "decide-close: arity"
+
+def decideOps : List (String × (List SExp → R SExp)) :=
+  [("decide", opDecide), ("decide-some", opDecideSome), ("decide-close", opDecideClose)]
 
 end Rdm.Ops
